@@ -21,3 +21,6 @@ def run(ctx, rep):
     more4.rule_extent_pairs(mod, rep)
     from ..rules import more5
     more5.rule_zero_skip(mod, rep)
+    from ..rules import more6
+    import re as _re
+    more6.rule_precision_family(mod, rep, floor=20, sel=lambda f: _re.search(r"gsrfs|gssvx|lacon|sp_.trsv|sp_.gemv", f.name) is not None)
